@@ -10,7 +10,7 @@ use std::io::Write as _;
 //
 //   v < 2^30                 -> v
 //   usize::MAX - v < 2^20    -> -(usize::MAX - v) - 1        (-1 = MAX, -2 = MAX-1, ...)
-//   anything else            -> -(2^20 + n) - 1, n = index in the per-process table of "other big" values
+//   anything else            -> -(2^20 + 2n + [v even]) - 1, n = index in the per-process table of "other big" values
 //
 // The specifications only need: negative means "larger than every legal count", and
 // the encoding is injective (error fields must echo the argument exactly).
@@ -34,7 +34,8 @@ pub fn enc(v: usize) -> i64 {
                 t.len() - 1
             }
         };
-        -((NEAR + n) as i64) - 1
+        // keep parity visible: d even <=> v odd (usize::MAX is odd), as for the near-MAX range
+        -((NEAR + 2 * n + usize::from(v % 2 == 0)) as i64) - 1
     }
 }
 
@@ -47,10 +48,10 @@ pub fn dec(e: i64) -> usize {
             usize::MAX - d
         } else {
             let t = OTHER_BIG.lock().unwrap();
-            match t.get(d - NEAR) {
+            match t.get((d - NEAR) / 2) {
                 Some(v) => *v,
-                // graphs may name "other big" values symbolically: map them deterministically
-                None => (1usize << 40) + (d - NEAR) * 0x1_0000_0001,
+                // graphs may name "other big" values symbolically: map them deterministically (parity kept)
+                None => (1usize << 40) + ((d - NEAR) / 2) * 0x1_0000_0002 + usize::from((d - NEAR) % 2 == 0),
             }
         }
     }
